@@ -4,7 +4,7 @@ From Coq Require Import ZArith List Bool String Ascii.
 From Coq.Strings Require Import Byte.
 From CP Require Import Core.Bytes Core.Result.
 Import ListNotations.
-Open Scope string_scope.
+Local Open Scope string_scope.
 Open Scope Z_scope.
 
 Definition digit_char (d : Z) : ascii := ascii_of_N (Z.to_N (if d <? 10 then 48 + d else 87 + d)).
@@ -49,11 +49,15 @@ Definition z_of_string (s : string) : Z :=
   | _ => z_of_digits s 0
   end.
 
-Fixpoint split_on (sep : ascii) (s : string) (cur : string) : list string :=
+Fixpoint rev_string (s acc : string) : string :=
+  match s with EmptyString => acc | String c r => rev_string r (String c acc) end.
+(* cur is kept reversed so that splitting is linear in the length of the line *)
+Fixpoint split_on_acc (sep : ascii) (s : string) (cur : string) : list string :=
   match s with
-  | EmptyString => [cur]
-  | String c r => if Ascii.eqb c sep then cur :: split_on sep r "" else split_on sep r (cur ++ String c "")
+  | EmptyString => [rev_string cur ""]
+  | String c r => if Ascii.eqb c sep then rev_string cur "" :: split_on_acc sep r "" else split_on_acc sep r (String c cur)
   end.
+Definition split_on (sep : ascii) (s : string) (cur : string) : list string := split_on_acc sep s (rev_string cur "").
 Definition words (s : string) : list string := split_on " " s "".
 
 Definition show_exn (e : exn) : string :=
